@@ -733,6 +733,11 @@ class Built(object):
         self.journal.add({'ev': 'extractor', 'behaviour': b})
         if b == 'ok':
             return {'u_tag': tag, 'u_n': 3}
+        if b == 'ok_live_mapping':
+            # the extractor hands back a mapping the SERVICE owns and goes on using (e.g. its statistics), not a fresh dict
+            self.live_stats = getattr(self, 'live_stats', None) or {}
+            self.live_stats.update({'u_tag': tag, 'u_n': 3})
+            return self.live_stats
         if b == 'ok_calls_output':
             # the extractor (user code that runs after the operation has ended) uses an intercepted output itself, e.g. a metrics sink
             outs = self.prog['outputs']
